@@ -244,6 +244,11 @@ func cutRun(run Output, mapping []glyphIndex, startRune, endRune int, trimStart 
 	run.Runes.Count = runeEnd - runeStart + 1
 	run.Runes.Offset = run.Runes.Offset + runeStart
 	if trimStart {
+		if len(run.Glyphs) != 0 && run.Glyphs[0].startLetterSpacing != 0 {
+			// the glyphs are shared with the input run (and with other line candidates) :
+			// trim a copy, so that a candidate which is later discarded leaves no trace
+			run.Glyphs = append([]Glyph(nil), run.Glyphs...)
+		}
 		run.trimStartLetterSpacing()
 	}
 	run.RecomputeAdvance()
